@@ -5,8 +5,15 @@ Verdict policy of this file: a violation is reported only on positive evidence (
 operations that are all recognised, a CFG path that avoids a set of fully classified operations, a truth table, an
 evaluation of the join loop for a concrete thread count).  Whatever is not recognised (an unknown use of the mutex or of
 a guard, an unclassified operation on a counter / the queue / the job object, a helper that was not inlined, a branch on a
-control-flow flag on the witness path) makes the answer `cannot decide` (dtable.Undecidable, exit 2)."""
-from engine import ir, dtable, match, sync, skel
+control-flow flag on the witness path) makes the answer `cannot decide` (dtable.Undecidable, exit 2).
+
+A local lambda that is only called by name in statement position (`const auto step = [this, &lock] {...}; step();`, also in the
+init / increment slot of a for loop) is expanded at its calls before the rules run (inline_local_lambdas); every other lambda
+that is not a wait predicate and touches the mutex / a guard / the queue / a counter / a condition variable makes the rules
+that depend on it undecidable."""
+import copy
+
+from engine import ir, dtable, match, sync, skel, normalize, cfgbuild
 from engine.ir import kids, strip_casts, const_int, ref_of
 
 TP = "tlx::ThreadPool"
@@ -54,6 +61,198 @@ def is_invoke(x):
 
 def mentions(e, field):
     return any(y["k"] == "MemberExpr" and match.this_field(y) == field for y in ir.walk(e))
+
+
+# ------------------------------------------------------------------------------------------------ local lambdas called by name
+LOOPS = ("WhileStmt", "ForStmt", "DoStmt", "CXXForRangeStmt")
+
+
+def _lambda_of(e):
+    """the LambdaExpr a local is initialised with (through casts, temporaries and the copy / move construction of the closure)"""
+    while e is not None and e["k"] != "LambdaExpr" and (e["k"] in WRAPPERS or e["k"] in ("CXXConstructExpr", "CXXTemporaryObjectExpr")) and len(kids(e)) == 1:
+        e = kids(e)[0]
+    return e if e is not None and e["k"] == "LambdaExpr" else None
+
+
+def _own_continue(s):
+    """s contains a `continue` that belongs to the loop whose body s is"""
+    if s is None:
+        return False
+    if s["k"] == "ContinueStmt":
+        return True
+    if s["k"] in LOOPS:
+        return False
+    return any(_own_continue(c) for c in kids(s))
+
+
+def _parents(root):
+    par = {}
+    for n, p in ir.walk_with_parent(root):
+        par[n["id"]] = p
+    return par
+
+
+def _replace_child(parent, old, new):
+    for i, c in enumerate(parent.get("ch") or []):
+        if c is old:
+            parent["ch"][i] = new
+            return
+    raise normalize.Fail("child not found")
+
+
+def _expand_lambda(tu, fn, rw, body, v, lam, lf):
+    """expands every call of the local lambda v (declaration in body) in place; normalize.Fail if any use of v is not a call in
+    statement position or the expansion is not safe.  body is a private copy: a failure half way leaves nothing behind"""
+    for c in (lam.get("captures") or []):
+        if c.get("byref"):
+            continue
+        # a copy made when the lambda is created is the value at the call only if the variable never changes: every mention of
+        # it, in fn and in the lambda, must be a plain read of its value
+        if c.get("name") == "this" or c.get("id") is None:
+            raise normalize.Fail("captures *this / an init-capture by copy")
+        for root in (body, lf.body):
+            par = _parents(root)
+            for y in ir.walk(root):
+                if y["k"] == "LambdaExpr" and y is not lam and y.get("id") != lam.get("id") and any(c2.get("id") == c["id"] and c2.get("byref") for c2 in (y.get("captures") or [])):
+                    raise normalize.Fail("captured by reference elsewhere")
+                if y["k"] != "DeclRefExpr" or y["ref"]["id"] != c["id"]:
+                    continue
+                x, q = y, par.get(y["id"])
+                while q is not None and q["k"] == "ParenExpr":
+                    x, q = q, par.get(q["id"])
+                # (the extractor drops lvalue-to-rvalue conversions: a read is told by what uses the value)
+                reads = q is not None and (
+                    (q["k"] == "BinaryOperator" and (q.get("op") != "=" or kids(q)[0] is not x) and q.get("op") not in (".*", "->*")) or
+                    (q["k"] == "UnaryOperator" and q.get("op") in ("-", "+", "!", "~")) or
+                    (q["k"] in ("ImplicitCastExpr", "CStyleCastExpr", "CXXStaticCastExpr", "CXXFunctionalCastExpr") and
+                     q.get("cast") in ("IntegralCast", "IntegralToBoolean", "IntegralToFloating", "FloatingCast", "FloatingToIntegral", "ToVoid", "NoOp", "LValueToRValue")
+                     and not (q.get("ty") or "").rstrip().endswith("&")) or
+                    (q["k"] in ("IfStmt", "WhileStmt", "ConditionalOperator") and kids(q)[0] is x) or
+                    (q["k"] == "ArraySubscriptExpr" and len(kids(q)) == 2 and kids(q)[1] is x))
+                if not reads:
+                    raise normalize.Fail("captures by copy a variable that is not only read")
+    if any(y["k"] in ("GotoStmt", "LabelStmt", "IndirectGotoStmt") or (y["k"] == "VarDecl" and y.get("static")) for y in ir.walk(lf.body)):
+        raise normalize.Fail("goto / static local")
+    for f2 in tu.functions:
+        if f2 is not fn and any(y["k"] == "DeclRefExpr" and y["ref"]["id"] == v["did"] for y in f2.nodes()):
+            raise normalize.Fail("the lambda is used from another function")
+    par = _parents(body)
+    ds = par.get(v["id"])
+    if ds is None or ds["k"] != "DeclStmt" or len(kids(ds)) != 1 or par.get(ds["id"]) is None or par[ds["id"]]["k"] != "CompoundStmt":
+        raise normalize.Fail("declaration form")
+
+    def expansion(call):
+        fake = {"k": "CallExpr", "id": call["id"], "l": call.get("l"), "ch": list(kids(call)[1:])}
+        pro, subst, rename = rw.bind(lf, fake)
+        stmts = [rw.simplify(rw.clone(x, subst, rename)) for x in kids(lf.body)]
+        stmts = rw.deret(stmts, lambda e: ([e] if e is not None and not rw.side_effect_free(e) else []))
+        return {"k": "CompoundStmt", "id": rw.fresh(), "l": call.get("l"), "ch": pro + stmts}
+    count = 0
+    while True:
+        use = None
+        for y in ir.walk(body):
+            if y["k"] == "DeclRefExpr" and y["ref"]["id"] == v["did"]:
+                use = y
+                break
+        if use is None:
+            break
+        count += 1
+        if count > 16:
+            raise normalize.Fail("too many calls")
+        par = _parents(body)
+        c, p = use, par.get(use["id"])
+        while p is not None and p["k"] in WRAPPERS:
+            c, p = p, par.get(p["id"])
+        if p is None or not is_invoke(p) or not is_first(p, c) or p["callee"].get("did") != lf.did:
+            raise normalize.Fail("the lambda is used for something else than a call")
+        call = top = p
+        q = par.get(top["id"])
+        while q is not None and q["k"] == "ExprWithCleanups":
+            top, q = q, par.get(q["id"])
+        if q is None or not any(x is top for x in kids(q)):
+            raise normalize.Fail("call position")
+        ch = kids(q)
+        if q["k"] == "CompoundStmt" or (q["k"] == "IfStmt" and top is not ch[0]) or (q["k"] == "WhileStmt" and top is ch[1]) or \
+                (q["k"] == "ForStmt" and len(ch) == 4 and top is ch[3]) or (q["k"] == "DoStmt" and top is ch[0]):
+            _replace_child(q, top, expansion(call))
+        elif q["k"] == "ForStmt" and len(ch) == 4 and top is ch[0]:
+            # for (step(); c; i) b   ->   { step(); for (; c; i) b }
+            gp = par.get(q["id"])
+            if gp is None:
+                raise normalize.Fail("loop position")
+            q["ch"][0] = None
+            _replace_child(gp, q, {"k": "CompoundStmt", "id": rw.fresh(), "l": q.get("l"), "ch": [expansion(call), q]})
+        elif q["k"] == "ForStmt" and len(ch) == 4 and top is ch[2]:
+            # for (a; c; step()) b   ->   for (a; c; ) { b; step(); }     (b has no continue of this loop)
+            if _own_continue(ch[3]):
+                raise normalize.Fail("continue in the loop body")
+            q["ch"][2] = None
+            q["ch"][3] = {"k": "CompoundStmt", "id": rw.fresh(), "l": q.get("l"), "ch": [ch[3], expansion(call)]}
+        else:
+            raise normalize.Fail("the call is not a statement of its own")
+    if count == 0:
+        raise normalize.Fail("never called")
+    par = _parents(body)
+    ds = par[v["id"]]
+    par[ds["id"]]["ch"] = [c for c in par[ds["id"]]["ch"] if c is not ds]
+
+
+def inline_local_lambdas(tu, fn):
+    """`const auto step = [this, &lock] { ... };  ...  step();  ...  step();` - a lambda that is bound to a local, captures by
+    reference only and is used for nothing but calls in statement position (the init / increment slot of a for loop included)
+    is expanded at its calls: early returns become if/else, its locals get fresh ids, its declaration goes away.  That is a
+    behaviour-preserving rewrite of fn (same operations in the same order on the same objects), after which the lock flow and
+    the path searches see the statements where they are executed.  Returns the dids of the lambdas expanded this way (they are
+    judged through fn from then on).  Whatever does not fit leaves fn as it is."""
+    gone = set()
+    if fn.body is None or fn.kind == "lambda" or not fn.cfg:
+        return gone
+    body = fn.body
+    tried = set()
+    rw = normalize.Rewriter(tu, fn)
+    dids = [y.get("did") for y in fn.nodes() if y["k"] == "VarDecl"] + [y["ref"]["id"] for y in fn.nodes() if y["k"] == "DeclRefExpr"]
+    rw.next_did = min([d for d in dids if isinstance(d, int)] + [0]) - 1
+    for _ in range(8):
+        found = False
+        for v in ir.walk(body):
+            if v["k"] != "VarDecl" or v.get("did") is None or v["did"] in tried or not kids(v):
+                continue
+            lam = _lambda_of(kids(v)[0])
+            lf = tu.by_did.get(lam.get("fn")) if lam is not None else None
+            if lf is None or lf.body is None or lf.body["k"] != "CompoundStmt":
+                continue
+            tried.add(v["did"])
+            trial = copy.deepcopy(body)
+            tv = [y for y in ir.walk(trial) if y["k"] == "VarDecl" and y.get("did") == v["did"]][0]
+            try:
+                _expand_lambda(tu, fn, rw, trial, tv, _lambda_of(kids(tv)[0]), lf)
+                cfgbuild.build(trial)
+            except (normalize.Fail, cfgbuild.Unsupported, KeyError, IndexError, TypeError):
+                continue
+            body = trial
+            gone.add(lf.did)
+            found = True
+            break
+        if not found:
+            break
+    if not gone:
+        return gone
+    try:
+        cfg = cfgbuild.build(body)
+        for _ in range(4):
+            if not rw.substitute_locals(body, cfg):
+                break
+            cfg = cfgbuild.build(body)
+    except (cfgbuild.Unsupported, normalize.Fail, KeyError, IndexError, TypeError):
+        return set()
+    fn.body = body
+    fn.cfg = cfg
+    fn.d = dict(fn.d)
+    fn.d["body"], fn.d["cfg"] = body, cfg
+    fn._byid = None
+    fn._parent = None
+    fn.normalized = True
+    return gone
 
 
 # ------------------------------------------------------------------------------------------------ uses of the data members
@@ -224,6 +423,17 @@ class Locks:
             if not ok:
                 bad = (x, "`%s` is used in a way the lock flow does not model (%s)"
                        % (MUTEX if is_m else x["ref"]["name"], dtable.describe(p)[:50] if p is not None and p["k"] not in ("CompoundStmt", "DeclStmt") else "escapes"))
+        if not bad:
+            # a lambda that captures a guard or names the mutex may lock / unlock wherever it runs
+            for lx, lf in lambdas_in(self.tu, fn):
+                if any(c.get("id") in gd for c in (lx.get("captures") or [])):
+                    bad = (lx, "a guard is captured by a lambda: lock operations inside it are not followed")
+                elif lf is None:
+                    bad = (lx, "body of a lambda not in the IR")
+                elif any((y["k"] == "MemberExpr" and match.this_field(y) == MUTEX) or (y["k"] == "DeclRefExpr" and y["ref"]["id"] in gd) for y in lf.nodes()):
+                    bad = (lx, "%s / a guard is used inside a lambda: lock operations there are not followed" % MUTEX)
+                if bad:
+                    break
         self._unknown[fn.did] = bad
         return bad
 
@@ -288,6 +498,11 @@ def path_doubt(fn, g, path):
         for y in ir.walk(cond):
             if y["k"] == "DeclRefExpr" and y["ref"]["id"] in flags:
                 return "the witness path branches on the local `%s` (line %s), whose value is set by control flow" % (flags[y["ref"]["id"]], cond.get("l"))
+            if "callee" in y:
+                # the result of a lambda / of a member of the pool is computed by code that the path search does not evaluate
+                cal = fn.tu.by_did.get(y["callee"].get("did")) if getattr(fn, "tu", None) is not None else None
+                if cal is not None and cal.body is not None and (cal.kind == "lambda" or cal.record == TP):
+                    return "the witness path branches on the result of %s (line %s), which is not evaluated" % (dtable.describe(y)[:30], cond.get("l"))
     return None
 
 
@@ -455,6 +670,21 @@ def recheck_loop_cond(fn, wnode):
 
 
 # ------------------------------------------------------------------------------------------------ lambdas
+def lambdas_in(tu, fn, seen=None):
+    """[(LambdaExpr node, function of its body | None)] of the lambdas created in fn and, recursively, in those lambdas.  (A
+    local lambda that is only called by name has been expanded into fn before and is not among them.)"""
+    seen = seen if seen is not None else set()
+    out = []
+    for x in fn.nodes():
+        if x["k"] == "LambdaExpr" and x.get("fn") not in seen:
+            seen.add(x.get("fn"))
+            lf = tu.by_did.get(x.get("fn"))
+            out.append((x, lf))
+            if lf is not None:
+                out += lambdas_in(tu, lf, seen)
+    return out
+
+
 def lambda_site(fns, lam):
     for fn in fns:
         for x in fn.nodes():
@@ -568,6 +798,37 @@ class QueueStates:
             sel = [l["val"] for l in leaves if l["result"] == truth]
             return frozenset(v for v in S if any(all(val.get(k, v[i]) == v[i] for i, k in enumerate(self.keys)) for val in sel))
 
+        # lambdas created in fn that change the queue (or call a member that works on it): the state is unknown after a direct
+        # call of one; one that is used in any other way runs at a place that is not known (`stray`)
+        self.opaque, self.stray = {}, []
+        for lx, lf in lambdas_in(tu, fn):
+            if lf is None:
+                self.stray.append((lx, "body of a lambda not in the IR"))
+                continue
+            if not (any(f == QUEUE and kind != "read" for f, kind, node, info in field_uses(lf)) or
+                    any("callee" in y and y["callee"].get("did") in locks.by_did and {QUEUE, MUTEX} & reach_fields(locks, locks.by_did[y["callee"]["did"]])
+                        for y in lf.nodes())):
+                continue
+            self.opaque[lf.did] = lx
+            what = "a lambda changes %s and is not expanded into %s()" % (QUEUE, fn.name)
+            self.unknown.append((lx, what))
+            direct = fn.byid(lx["id"]) is lx
+            if direct:
+                p, c, _ = up(fn, lx)
+                while p is not None and p["k"] in ("CXXConstructExpr", "CXXTemporaryObjectExpr") and len(kids(p)) == 1:
+                    p, c, _ = up(fn, p)
+                if p is not None and p["k"] == "VarDecl":
+                    for f2 in tu.functions:
+                        for y in f2.nodes():
+                            if y["k"] == "DeclRefExpr" and y["ref"]["id"] == p["did"]:
+                                q, c2, _ = up(fn, y) if f2 is fn else (None, None, None)
+                                if not (q is not None and is_invoke(q) and is_first(q, c2) and q["callee"].get("did") == lf.did):
+                                    direct = False
+                elif not (p is not None and is_invoke(p) and is_first(p, c) and p["callee"].get("did") == lf.did):
+                    direct = False
+            if not direct:
+                self.stray.append((lx, what + ", where it runs is not known"))
+
         preds = {}
         for w in sync.wait_calls(fn):
             e = None
@@ -614,6 +875,8 @@ class QueueStates:
                 if f in self.flags and name in ("operator=", "store", "exchange"):
                     i = self.keys.index(f)
                     return frozenset(v[:i] + (True,) + v[i + 1:] for v in S)
+            if is_invoke(n) and n["callee"].get("did") in self.opaque:
+                return top
             if "callee" in n and n["callee"].get("did") in locks.by_did and n["callee"]["did"] != fn.did:
                 rf = reach_fields(locks, locks.by_did[n["callee"]["did"]])
                 if QUEUE in rf or MUTEX in rf:
@@ -682,6 +945,56 @@ class QueueStates:
             return None
         ei = self.keys.index(self.E)
         return [dict(zip(self.keys, v)) for v in sorted(self.state[p]) if v[ei]]
+
+
+def queue_begin(e):
+    """e is jobs_.begin() / jobs_.cbegin(), possibly converted to another iterator type"""
+    e = strip_casts(e)
+    for _ in range(4):
+        if e is not None and e["k"] in WRAPPERS + ("CXXConstructExpr", "CXXTemporaryObjectExpr") and len(kids(e)) == 1 and \
+                (e["k"] in WRAPPERS or "iterator" in (e.get("ty") or "")):
+            e = strip_casts(kids(e)[0])
+    return e is not None and "callee" in e and bool(e.get("member_call")) and e["callee"]["name"] in ("begin", "cbegin") and bool(kids(e)) and \
+        len(kids(e)) == 1 and match.this_field(kids(e)[0]) == QUEUE
+
+
+def take_ops(fn):
+    """(fronts, pops, odd): reads of the element at an end of the job queue - front() back() *begin() [0] at(0) -, removals of
+    that element - pop_front() pop_back() erase(begin()) -, and element accesses / removals of any other form"""
+    fronts, pops, odd = [], [], []
+    for x in fn.nodes():
+        if "callee" not in x or not kids(x):
+            continue
+        name = x["callee"]["name"]
+        if x.get("op") == "*" and len(kids(x)) == 1 and mentions(kids(x)[0], QUEUE):
+            (fronts if queue_begin(kids(x)[0]) else odd).append(x)
+        elif (x.get("member_call") or x["k"] == "CXXOperatorCallExpr") and match.this_field(kids(x)[0]) == QUEUE:
+            args = kids(x)[1:]
+            if name in ("front", "back") and not args:
+                fronts.append(x)
+            elif name in ("pop_front", "pop_back") and not args:
+                pops.append(x)
+            elif name in ("operator[]", "at") and len(args) == 1:
+                (fronts if const_int(args[0]) == 0 else odd).append(x)
+            elif name == "erase":
+                (pops if len(args) == 1 and queue_begin(args[0]) else odd).append(x)
+    for x in fn.nodes():
+        if x["k"] == "UnaryOperator" and x.get("op") == "*" and kids(x) and mentions(kids(x)[0], QUEUE):
+            odd.append(x)
+        if x["k"] == "MemberExpr" and x.get("arrow") and kids(x) and strip_casts(kids(x)[0])["k"] != "This" and mentions(kids(x)[0], QUEUE):
+            odd.append(x)          # jobs_.begin()->...
+    return fronts, pops, odd
+
+
+def take_label(x):
+    name = x["callee"]["name"]
+    if name == "operator*":
+        return "*%s.begin()" % QUEUE
+    if name == "erase":
+        return "erase(%s.begin())" % QUEUE
+    if name in ("operator[]", "at"):
+        return "%s[0]" % QUEUE
+    return name + "()"
 
 
 def reach_fields(locks, fn, seen=None):
@@ -853,8 +1166,11 @@ def run(ck):
     tu = ir.extract("tlx/thread_pool.cpp", ndebug=True)
     fns = [f for f in tu.find(record=TP)]
     ck.require(len(fns) >= 10, "ThreadPool members not found")
+    expanded = set()         # local lambdas that are only called by name: expanded at their calls, judged through the member
+    for f in fns:
+        expanded |= inline_local_lambdas(tu, f)
     locks = Locks(tu, fns)
-    lambdas = [f for f in tu.functions if f.kind == "lambda" and f.qname.startswith(TP + "::")]
+    lambdas = [f for f in tu.functions if f.kind == "lambda" and f.qname.startswith(TP + "::") and f.did not in expanded]
     uses = {fn.did: field_uses(fn) for fn in fns}
 
     # ---- waits and predicates
@@ -948,8 +1264,8 @@ def run(ck):
         for y in fn_.nodes():
             if y["k"] == "MemberExpr" and match.this_field(y) and is_bool_field(y):
                 mono_flags.add(match.this_field(y))
-    for fn_ in fns:
-        for f, kind, node, info in uses[fn_.did]:
+    for fn_ in fns + lambdas:
+        for f, kind, node, info in (uses[fn_.did] if fn_.did in uses else field_uses(fn_)):
             if f in mono_flags and kind not in ("read",) and not (kind == "set" and info is not None and const_int(info) not in (None, 0)) and fn_.kind != "ctor":
                 mono_flags.discard(f)
     qstates = {}
@@ -966,12 +1282,14 @@ def run(ck):
     J = {}
 
     def take_atomic():
-        takes = [x for x in worker.nodes() if "callee" in x and x.get("member_call") and kids(x) and match.this_field(kids(x)[0]) == QUEUE]
-        fronts = [x for x in takes if x["callee"]["name"] in ("front", "back")]
-        pops = [x for x in takes if x["callee"]["name"] in ("pop_front", "pop_back")]
+        fronts, pops, odd = take_ops(worker)
+        if odd and not (fronts and pops):
+            undecided(worker, odd[0], "access to an element of %s / removal from it in a form that is not understood: %s" % (QUEUE, dtable.describe(odd[0])[:50]))
         ck.require(fronts and pops, "worker: front()/pop_front() of the job queue not found")
         J["pops"] = pops
         qs = queue_states(worker)
+        if qs.stray:
+            undecided(worker, qs.stray[0][0], qs.stray[0][1])
         bad = None
         for x in fronts + pops:
             if qs.maybe_empty(x) is None:
@@ -979,11 +1297,11 @@ def run(ck):
         for lst in (fronts, pops):
             if bad is None and not any(qs.state[g.pos(x)] for x in lst):
                 # the evaluation shows that no valuation of (jobs_.empty(), flags) passes the conditions in front of the take
-                bad = (lst[0], "%s() is unreachable: the conditions that guard it cannot hold together, no job is ever taken" % lst[0]["callee"]["name"])
+                bad = (lst[0], "%s is unreachable: the conditions that guard it cannot hold together, no job is ever taken" % take_label(lst[0]))
         for x in fronts + pops:
             st = qs.maybe_empty(x)
             if st and bad is None:
-                bad = (x, "%s() is reached with %s" % (x["callee"]["name"], ", ".join("%s = %s" % (k, str(v).lower()) for k, v in sorted(st[0].items()))))
+                bad = (x, "%s is reached with %s" % (take_label(x), ", ".join("%s = %s" % (k, str(v).lower()) for k, v in sorted(st[0].items()))))
         if bad is None:
             for x in pops:
                 path = g.path_from_entry_avoiding(g.pos(x), [g.pos(y) for y in fronts if g.pos(y)])
@@ -991,10 +1309,12 @@ def run(ck):
                     doubt = path_doubt(worker, g, path)
                     if doubt:
                         undecided(worker, x, doubt)
-                    bad = (x, "%s() is reached without a preceding front()" % x["callee"]["name"])
+                    bad = (x, "%s is reached without a preceding front()" % take_label(x))
         if bad is not None:
             if qs.unknown:
                 undecided(worker, qs.unknown[0][0], qs.unknown[0][1])
+            if odd:
+                undecided(worker, odd[0], "access to an element of %s / removal from it in a form that is not understood: %s" % (QUEUE, dtable.describe(odd[0])[:50]))
             doubt = flag_branch(worker)
             if doubt:
                 undecided(worker, bad[0], doubt)
@@ -1060,6 +1380,15 @@ def run(ck):
             cal = locks.by_did[x["callee"]["did"]]
             if reach_fields(locks, cal) & {"busy_", "done_"}:
                 undecided(worker, x, "%s() works on busy_ / done_ and was not inlined" % cal.name)
+        for lx, lf in lambdas_in(tu, worker):
+            if lf is None:
+                undecided(worker, lx, "body of a lambda not in the IR")
+            for f, kind, node, info in field_uses(lf):
+                if f in ("busy_", "done_") and kind != "read":
+                    undecided(worker, lx, "a lambda that is not expanded into worker() works on %s (%s)" % (f, dtable.describe(node)[:40]))
+            for y in lf.nodes():
+                if "callee" in y and y["callee"].get("did") in locks.by_did and reach_fields(locks, locks.by_did[y["callee"]["did"]]) & {"busy_", "done_"}:
+                    undecided(worker, lx, "a lambda that is not expanded into worker() calls %s(), which works on busy_ / done_" % y["callee"]["name"])
         incs, decs, dones = [], [], []
         for f, kind, node, info in wuses:
             if f not in ("busy_", "done_") or kind == "read":
@@ -1330,6 +1659,10 @@ def run(ck):
                 undecided(fn, x, "effect of %s on the predicate of %s not understood" % (dtable.describe(x)[:40], cv))
             if opaque:
                 undecided(fn, opaque[0], "%s may notify %s; whether it always does is not decided" % (dtable.describe(opaque[0])[:40], cv))
+            for lx, lf in lambdas_in(tu, fn):
+                if lf is None or any(n["cv"] in (cv, None) for n in sync.notify_calls(lf)) or \
+                        any("callee" in y and y["callee"].get("did") in locks.by_did and must_notify(locks.by_did[y["callee"]["did"]], cv) != "no" for y in lf.nodes()):
+                    undecided(fn, lx, "a lambda in %s() may notify %s; where it runs is not followed" % (fn.name, cv))
             if locks.callers(fn):
                 undecided(fn, x, "%s() is called from %s: the notification may follow there" % (fn.name, locks.callers(fn)[0][0].qname))
             doubt = path_doubt(fn, gg, path)
@@ -1362,6 +1695,17 @@ def run(ck):
                 continue
             for cv, lst in preds.items():
                 ck.guarded(lambda fn=fn, x=x, f=f, eff=eff, cv=cv, lst=lst: write_notify(fn, x, f, eff, cv, lst))
+
+    # a write to a variable of a wait predicate inside a lambda that was not expanded: where it runs, hence what follows it, is not known
+    def lambda_write(lam, x, f, eff):
+        for cv, lst in preds.items():
+            if any(atom in mono for text, mono, pfn in lst for atom in eff):
+                undecided(lam, x, "%s inside a lambda changes a wait predicate of %s: the notification after it is not followed" % (dtable.describe(x)[:40], cv))
+    for lam in lambdas:
+        for f, kind, x, info in field_uses(lam):
+            eff = effects_of(f, kind, x, info)
+            if eff:
+                ck.guarded(lambda lam=lam, x=x, f=f, eff=eff: lambda_write(lam, x, f, eff))
 
     # notify kind
     def notify_kind(fn, n):
